@@ -224,6 +224,20 @@ def zor(*xs):
 FDIV = z3.Function("FDIV", REAL, REAL, INT)
 
 
+def has_quantifier(e, _seen=None):
+    seen = set() if _seen is None else _seen
+    stack = [e]
+    while stack:
+        x = stack.pop()
+        if x.get_id() in seen:
+            continue
+        seen.add(x.get_id())
+        if z3.is_quantifier(x):
+            return True
+        stack.extend(x.children())
+    return False
+
+
 def py_floordiv_int(a, b):
     # z3 div is Euclidean; Python floors
     return z3.If(b > 0, a / b, (-a) / (-b))
@@ -404,7 +418,10 @@ class Machine:
         s = self._feas
         # incremental: add the pc items not yet added
         while self._feas_n < len(self.pc):
-            s.add(self.pc[self._feas_n])
+            # path pruning uses the quantifier-free assumptions only (sound: fewer
+            # hypotheses can only keep more paths)
+            if not has_quantifier(self.pc[self._feas_n]):
+                s.add(self.pc[self._feas_n])
             self._feas_n += 1
         if cond is None:
             return s.check() != z3.unsat
@@ -535,6 +552,9 @@ class Machine:
         return out
 
     def havoc_ref(self, r):
+        if r.kind == "ext":
+            self.heap[(r.id, "impl")].havoc(self, r)
+            return
         if r.kind == "zip":
             return
         if r.kind == "iter" and self.heap.get((r.id, "owner")) is not None:
@@ -572,9 +592,14 @@ class Machine:
             self.locals[name] = self.fresh("hv_" + name, REAL)
         elif is_z3(old):
             self.locals[name] = self.fresh("hv_" + name, old.sort())
+        elif isinstance(old, Ref) and old.kind == "list":
+            # a list local re-bound inside the loop: afterwards it is some list
+            fresh = self.new_list(old.elem, arr=self.fresh("hv_arr_" + name, z3.ArraySort(INT, old.elem.sort)),
+                                  length=self.fresh("hv_len_" + name, INT))
+            self.assume(self.heap[(fresh.id, "len")] >= 0)
+            self.locals[name] = fresh
         elif isinstance(old, Ref) or old is None or isinstance(old, (str, tuple, Closure, UFn, Builtin)):
-            # references keep identity unless the sidecar declares otherwise;
-            # re-binding a reference inside a loop is outside the subset
+            # other references keep identity; re-binding them inside a loop is outside the subset
             self.rebound_refs.add(name)
         else:
             raise Unsupported("cannot havoc local %s of kind %r" % (name, type(old)))
@@ -582,6 +607,8 @@ class Machine:
     # ---- iterator protocol ---------------------------------------------------
     def iter_of(self, v):
         """iter(v)"""
+        if isinstance(v, Ref) and v.kind == "ext":
+            return self.heap[(v.id, "impl")].iter(self, v)
         if isinstance(v, Ref):
             if v.kind in ("iter", "gen", "zip"):
                 return v
@@ -664,6 +691,8 @@ class Machine:
                 pass
 
     def do_next(self, it, default=None):
+        if not isinstance(it, Ref) and self.c.next_hook is not None:
+            return self.c.next_hook(self, it)
         if not (isinstance(it, Ref) and it.kind in ("iter", "zip")):
             raise Unsupported("next() of a non-iterator %r" % (it,))
         i = self.choose([("next", self.it_has_next(it)), ("stop", self.it_exhausted(it))])
@@ -759,6 +788,8 @@ class Machine:
         raise Unsupported("ite over %r / %r" % (a, b))
 
     def truth(self, v):
+        if isinstance(v, Ref) and v.kind == "ext":
+            return self.heap[(v.id, "impl")].truth(self, v)
         if isinstance(v, bool):
             return v
         if v is None:
@@ -1003,6 +1034,8 @@ class Machine:
         return self.index(base, idx)
 
     def index(self, base, idx):
+        if isinstance(base, Ref) and base.kind == "ext":
+            return self.heap[(base.id, "impl")].index(self, base, idx)
         if isinstance(base, dict):
             if idx in base:
                 return base[idx]
@@ -1092,6 +1125,8 @@ class Machine:
         f = self.eval(node.func)
         if isinstance(f, Builtin) and f.name.startswith("spec:"):
             return SPEC_FUNCS[f.name[5:]](self, node)
+        if getattr(f, "_pyvc_spec", False):
+            return f(self, node)
         args = []
         consuming = isinstance(f, Builtin) and f.name in CONSUMERS
         for a in node.args:
@@ -1258,6 +1293,8 @@ class Machine:
         base, attr = bm.base, bm.attr
         if bm.handler is not None:
             return bm.handler(self, base, args, kwargs)
+        if base.kind == "ext":
+            return self.heap[(base.id, "impl")].method(self, base, attr, args, kwargs)
         if base.kind == "deque":
             lo, hi, hist = (self.heap[(base.id, k)] for k in ("lo", "hi", "hist"))
             maxlen = self.heap[(base.id, "maxlen")]
@@ -1634,8 +1671,9 @@ class Machine:
             self.havoc_ref(r)
         for n in names:
             self.havoc_local(n)
-        if self.rebound_refs:
-            raise Unsupported("reference re-bound inside a loop: %s" % sorted(self.rebound_refs))
+        really = {nm for nm in self.rebound_refs if self._rebinds_ref(body_nodes, nm)}
+        if really:
+            raise Unsupported("reference re-bound inside a loop: %s" % sorted(really))
         if contains_yield(body_nodes) or self.c.loop_havoc_ghost:
             for g, old in list(self.ghost.items()):
                 if g in self.c.ghost_const:
@@ -1647,6 +1685,19 @@ class Machine:
                 elif isinstance(old, (float, fractions.Fraction)):
                     self.ghost[g] = self.fresh("hv_" + g, REAL)
             self.assume(self.ghost["nout"] >= 0)
+
+    def _rebinds_ref(self, body_nodes, name):
+        """a for-loop target that iterates over a container of references, or an
+        except-clause name, is not a re-binding of an outer reference"""
+        for nd in body_nodes:
+            for x in ast.walk(nd):
+                if isinstance(x, (ast.Assign, ast.AugAssign)):
+                    tgts = x.targets if isinstance(x, ast.Assign) else [x.target]
+                    for t in tgts:
+                        for y in ast.walk(t):
+                            if isinstance(y, ast.Name) and y.id == name:
+                                return True
+        return False
 
     def check_invs(self, n, spec, phase):
         for label, text in spec.inv:
